@@ -350,19 +350,9 @@ func calcStatusCode(cfg *ResponseConfig, a *asset, segmentPart string, nowMS int
 		cycleInTimescale := cycle * repTimescale
 		nrWraps := startTime / cycleInTimescale
 		wrapStartS := nrWraps * cycle
-		// Next we need to find the number after wrap
-		// For that we need to find the first segment nr after wrapStart
-		// Use nowMS = cycleStart to look up the latest segment published at that time
-		firstNr := 0
-		if nrWraps > 0 {
-			lastNr := findLastSegNr(cfg, a, wrapStartS*1000, segMeta.rep)
-			firstNr = lastNr + 1
-		}
-		segTime := findSegStartTime(a, cfg, firstNr, segMeta.rep)
-		if segTime < wrapStartS*repTimescale {
-			firstNr += 1
-		}
-		idx := int(segMeta.newNr) - firstNr
+		// Index (counted from the stream start) of the first segment starting in this cycle
+		firstNr := firstSegIdxStartingAtOrAfter(a, segMeta.rep, wrapStartS*repTimescale)
+		idx := int(segMeta.newNr) - cfg.getStartNr() - firstNr
 		if idx < 0 {
 			return 0, fmt.Errorf("segment %d is before first segment %d", segMeta.newNr, firstNr)
 		}
@@ -371,6 +361,21 @@ func calcStatusCode(cfg *ResponseConfig, a *asset, segmentPart string, nowMS int
 		}
 	}
 	return 0, nil
+}
+
+// firstSegIdxStartingAtOrAfter returns the zero-based live index of the first segment of rep
+// whose start time (relative to availabilityStartTime, in the rep timescale) is >= t.
+func firstSegIdxStartingAtOrAfter(a *asset, rep *RepData, t int) int {
+	wrapLen := len(rep.Segments)
+	wrapDur := a.LoopDurMS * rep.MediaTimescale / 1000
+	nrWraps := t / wrapDur
+	rel := t - nrWraps*wrapDur
+	for i, seg := range rep.Segments {
+		if int(seg.StartTime) >= rel {
+			return nrWraps*wrapLen + i
+		}
+	}
+	return (nrWraps + 1) * wrapLen
 }
 
 func findLastSegNr(cfg *ResponseConfig, a *asset, nowMS int, rep *RepData) int {
